@@ -48,7 +48,8 @@ def _repo() -> str:
 def _module(rel: str) -> ast.Module:
     path = os.path.join(_repo(), rel)
     with open(path, encoding='utf-8') as fh:
-        return ast.parse(fh.read(), filename=path)
+        from harness.astnorm import normalise     # named constants / folded literals read as the literals they are
+        return normalise(ast.parse(fh.read(), filename=path))
 
 
 def _fail(node: Optional[ast.AST], why: str):
